@@ -135,16 +135,28 @@ class Rec(CallbackBase):
         self._ev(nn_state, "BE", epoch, batch)
 
 
+# the documented parameter orders (docstrings of the classes / of fit)
+LAMBDA_ORDER = ["on_train_start", "on_train_end", "on_epoch_start", "on_epoch_end", "on_batch_start", "on_batch_end"]
+EVAL_ORDER = ["period", "metrics", "verbose", "log"]
+OBSEVAL_ORDER = ["period", "observables", "verbose", "log"]
+SAVER_ORDER = ["period", "folder_path", "file_name", "save_initial", "metadata", "metadata_only"]
+LOGGER_ORDER = ["period", "logger_fn", "msg_gen"]
+EARLY_ORDER = ["period", "tolerance", "patience", "evaluator_callback", "quantity_name", "criterion"]
+VEARLY_ORDER = ["period", "tolerance", "patience", "evaluator_callback", "quantity_name", "variance_name"]
+FIT_ORDER = ["epochs", "pos_batch_size", "neg_batch_size", "k", "lr"]
+
+
 def as_lambda(rec):
     """The same recording callback, built with the library's LambdaCallback (hooks installed as
     instance attributes) instead of subclassing CallbackBase."""
     from qucumber.callbacks import LambdaCallback
-    return LambdaCallback(on_train_start=lambda nn: rec.on_train_start(nn),
-                          on_train_end=lambda nn: rec.on_train_end(nn),
-                          on_epoch_start=lambda nn, ep: rec.on_epoch_start(nn, ep),
-                          on_epoch_end=lambda nn, ep: rec.on_epoch_end(nn, ep),
-                          on_batch_start=lambda nn, ep, b: rec.on_batch_start(nn, ep, b),
-                          on_batch_end=lambda nn, ep, b: rec.on_batch_end(nn, ep, b))
+    return common.api_call(LambdaCallback, LAMBDA_ORDER,
+                           dict(on_train_start=lambda nn: rec.on_train_start(nn),
+                                on_train_end=lambda nn: rec.on_train_end(nn),
+                                on_epoch_start=lambda nn, ep: rec.on_epoch_start(nn, ep),
+                                on_epoch_end=lambda nn, ep: rec.on_epoch_end(nn, ep),
+                                on_batch_start=lambda nn, ep, b: rec.on_batch_start(nn, ep, b),
+                                on_batch_end=lambda nn, ep, b: rec.on_batch_end(nn, ep, b)))
 
 
 class EpochTracker(CallbackBase):
@@ -395,13 +407,15 @@ def build_callbacks(cfg, R, plan, nn_state, tmpdir):
                 if has_second(cfg, i):
                     # a second metric registered AFTER "m" whose name sorts BEFORE it, with unmistakable values
                     metrics["a"] = lambda nn, **kw: second_value(R.cur_ep)
-                slot.append(MetricEvaluator(d["period"], metrics, verbose=bool(d.get("verbose")),
-                                            log=os.path.join(tmpdir, "eval%d.csv" % i) if d.get("log") else None,
-                                            extra_kw=1))
+                slot.append(common.api_call(MetricEvaluator, EVAL_ORDER,
+                                            dict(period=d["period"], metrics=metrics, verbose=bool(d.get("verbose")),
+                                                 log=os.path.join(tmpdir, "eval%d.csv" % i) if d.get("log") else None,
+                                                 extra_kw=1)))
             else:
-                ev = ObservableEvaluator(d["period"], [SigmaZ()], verbose=bool(d.get("verbose")),
-                                         log=os.path.join(tmpdir, "eval%d.csv" % i) if d.get("log") else None,
-                                         num_samples=4)
+                ev = common.api_call(ObservableEvaluator, OBSEVAL_ORDER,
+                                     dict(period=d["period"], observables=[SigmaZ()], verbose=bool(d.get("verbose")),
+                                          log=os.path.join(tmpdir, "eval%d.csv" % i) if d.get("log") else None,
+                                          num_samples=4))
 
                 def stats(nn, _i=i, **kw):
                     R.hist.append(dict(k="EV", cb=_i, ep=R.cur_ep))
@@ -418,16 +432,17 @@ def build_callbacks(cfg, R, plan, nn_state, tmpdir):
                 meta = (lambda nn, ep, _i=i: {"epoch_meta": ep, "tag": "t%d" % _i})
             else:
                 meta = None
-            slot.append(ModelSaver(d["period"], os.path.join(tmpdir, "sv%d" % i), "m{}.pt",
-                                   save_initial=bool(d["initial"]), metadata=meta,
-                                   metadata_only=bool(d.get("metaonly"))))
+            slot.append(common.api_call(ModelSaver, SAVER_ORDER,
+                                        dict(period=d["period"], folder_path=os.path.join(tmpdir, "sv%d" % i), file_name="m{}.pt",
+                                             save_initial=bool(d["initial"]), metadata=meta,
+                                             metadata_only=bool(d.get("metaonly")))))
         elif t == "logger":
             def logfn(msg, _i=i):
                 m = re.match(r"Epoch (-?\d+):", msg)
                 R.hist.append(dict(k="LG", cb=_i, ep=int(m.group(1)) if m else None))
                 R.loglines.append(msg)
                 R.logged.setdefault(_i, []).append(int(m.group(1)) if m else None)
-            slot.append(Logger(d["period"], logger_fn=logfn))
+            slot.append(common.api_call(Logger, LOGGER_ORDER, dict(period=d["period"], logger_fn=logfn)))
         elif t == "early":
             evcb = objs[d["ev"] - 1]
             tol = float("inf") if d["tolD"] == 0 else d["tolN"] / d["tolD"]
@@ -437,9 +452,13 @@ def build_callbacks(cfg, R, plan, nn_state, tmpdir):
                 from qucumber.callbacks import VarianceBasedEarlyStopping
                 with warnings.catch_warnings():
                     warnings.simplefilter("ignore")
-                    slot.append(VarianceBasedEarlyStopping(d["period"], tol, d["patience"], evcb, name))
+                    slot.append(common.api_call(VarianceBasedEarlyStopping, VEARLY_ORDER,
+                                                dict(period=d["period"], tolerance=tol, patience=d["patience"],
+                                                     evaluator_callback=evcb, quantity_name=name)))
             else:
-                slot.append(EarlyStopping(d["period"], tol, d["patience"], evcb, name, criterion=d["crit"]))
+                slot.append(common.api_call(EarlyStopping, EARLY_ORDER,
+                                            dict(period=d["period"], tolerance=tol, patience=d["patience"],
+                                                 evaluator_callback=evcb, quantity_name=name, criterion=d["crit"])))
         else:
             raise common.MachineryError("unknown callback descriptor %r" % (d,))
     return objs
@@ -552,7 +571,7 @@ def real_run(cfg, plan=(), seed=0, k=1, lr=0.05, numeric_hook=None, time_flag=Fa
         out = io.StringIO()
         with observe(nn_state, R, numeric=bool(numeric_hook), force=force), contextlib.redirect_stdout(out):
             try:
-                nn_state.fit(data, **kwargs)
+                common.api_call(nn_state.fit, FIT_ORDER, kwargs, first=(data,))
             except Exception as ex:     # reported by the caller, never swallowed silently
                 err = ex
         nn_state.__dict__.pop("save", None)
